@@ -144,6 +144,9 @@ pub fn c12(cx: &RunCtx) {
     c12_dom::<Dec>(cx);
     c12_dom::<Cpx>(cx);
     c12_dom::<Num>(cx);
+    // every function name and alias — also called with no argument — as the left factor, the right partner and
+    // in the middle of an implicit product (the per-name family), judged by the reference
+    crate::fam::per_name_all(cx, &[Kind::Value, Kind::MalformedOk, Kind::WellFormedErr]);
 }
 
 // ---------------------------------------------------------------- C13
